@@ -119,7 +119,10 @@ impl<'a, 'b> HeaderWriter<'a, 'b> {
         for (v, i) in iter {
             i.write(self.cursor)?;
             v.write(self.cursor)?;
-            count.increment();
+            // more items than the count field can express cannot be encoded in one header
+            count = count
+                .checked_next()
+                .ok_or(scursor::WriteError::NumericOverflow)?;
         }
 
         self.cursor.at_pos(pos_of_count, |cur| count.write(cur))
